@@ -15,15 +15,21 @@ T == Traces[tid]
 
 Init == tid = 1 /\ i = 1 /\ memo = [x \in {} |-> [digest |-> "", how |-> ""]] /\ v = V0
 
+(* an event may also say whether the caller's working directory and argument vector were as before (`restored`): C08_restore *)
+WithRestore(vv, ev) ==
+  IF "restored" \in DOMAIN ev
+  THEN VJoin(vv, Clause("C08_restore", TRUE, ev.restored, [input |-> ev.input, how |-> ev.how]))
+  ELSE vv
+
 Event ==
   /\ tid <= Len(Traces) /\ i <= Len(T.events)
   /\ LET ev == T.events[i] IN
      IF ev.input \in DOMAIN memo
-     THEN /\ v' = VJoin(v, Clause(T.clause, TRUE, memo[ev.input].digest = ev.digest,
-                                  [input |-> ev.input, first |-> memo[ev.input].how, differs |-> ev.how, position |-> i]))
+     THEN /\ v' = WithRestore(VJoin(v, Clause(T.clause, TRUE, memo[ev.input].digest = ev.digest,
+                                  [input |-> ev.input, first |-> memo[ev.input].how, differs |-> ev.how, position |-> i])), ev)
           /\ UNCHANGED memo
      ELSE /\ memo' = [x \in DOMAIN memo \cup {ev.input} |-> IF x = ev.input THEN [digest |-> ev.digest, how |-> ev.how] ELSE memo[x]]
-          /\ v' = VJoin(v, Clause(T.clause \o "_first_seen", TRUE, TRUE, <<>>))
+          /\ v' = WithRestore(VJoin(v, Clause(T.clause \o "_first_seen", TRUE, TRUE, <<>>)), ev)
   /\ i' = i + 1 /\ UNCHANGED tid
 
 Finish == /\ tid <= Len(Traces) /\ i = Len(T.events) + 1
